@@ -259,8 +259,8 @@ def race_violations(prop, outdir):
             for blk in rep.split("\n\n")[:2]:
                 for line in blk.splitlines()[1:]:
                     line = line.strip()
-                    if "panicparse/v2/" in line and "zz_verif" not in line and "(" in line:
-                        fn = line.split("(")[0].split("/")[-1]
+                    if "panicparse/v2/" in line and "zz_verif" not in line and line.endswith("()"):
+                        fn = line[:-2].split("/")[-1]
                         fns.append(fn)
                         break
             fp = "%s/data-race:%s" % (prop, "+".join(sorted(set(fns))) or "unknown")
